@@ -70,6 +70,13 @@ func condFormWith(fn *ssa.Function, startBlock *ssa.BasicBlock, startIdx int,
 					c, _ := normCond(cv)
 					a, _, ok := classify(c)
 					if !ok {
+						// the condition extracted into a predicate helper of the package: its own atoms, in the caller's names
+						if hAtoms, hok := predicateTableAtoms(fn, cv, classify, 0); hok {
+							for _, ha := range hAtoms {
+								atomSet[ha] = true
+							}
+							continue
+						}
 						return fmt.Errorf("unrecognised condition %q in the region", c)
 					}
 					atomSet[a] = true
@@ -147,7 +154,22 @@ func condFormWith(fn *ssa.Function, startBlock *ssa.BasicBlock, startIdx int,
 					if flip {
 						cpol = !cpol
 					}
-					a, apol, _ := classify(c)
+					a, apol, okc := classify(c)
+					if !okc {
+						if hv, hok := evalPredicateHelper(fn, cv, classify, val, 0); hok {
+							// hv is the truth of the (NOT-stripped) call value; cpol says under which truth the branch cond holds
+							_, cp2 := normCond(cv)
+							if flip {
+								cp2 = !cp2
+							}
+							if hv == cp2 {
+								next = 0
+							} else {
+								next = 1
+							}
+							continue
+						}
+					}
 					// canonical cond c is true iff atom == apol; branch cond true iff c == cpol
 					cTrue := val[a] == apol
 					if cTrue == cpol {
@@ -201,4 +223,143 @@ func (r *condFormResult) compare(want func(val map[string]bool) string) []string
 		}
 	}
 	return diffs
+}
+
+
+// predicate helpers inside a decision region: `if r.hasTimedOut(rec)` stands for the helper's own decision. The helper
+// is a same-package function with a single boolean result whose body is loop-free; its branch conditions and returned
+// conditions are classified in the CALLER's names (parameters replaced by the arguments of the call).
+
+func predicateHelperOf(f *ssa.Function, cv ssa.Value) (*ssa.Function, *ssa.Call, bool) {
+	v, _ := stripNot(cv)
+	call, idx, ok := boolCallOf(v)
+	if !ok || idx != 0 {
+		return nil, nil, false
+	}
+	h := helperCallee(f, &call.Call)
+	if h == nil || h.Signature.Results().Len() != 1 || len(h.Blocks) > 40 {
+		return nil, nil, false
+	}
+	return h, call, true
+}
+
+func predicateTableAtoms(f *ssa.Function, cv ssa.Value, classify func(string) (string, bool, bool), depth int) ([]string, bool) {
+	h, call, ok := predicateHelperOf(f, cv)
+	if !ok || depth > 1 {
+		return nil, false
+	}
+	cls := func(c string) (string, bool, bool) { return classify(substParams(c, h, &call.Call)) }
+	set := map[string]bool{}
+	okAll := true
+	add := func(v ssa.Value) {
+		if _, isConst := v.(*ssa.Const); isConst {
+			return
+		}
+		c, _ := normCond(v)
+		if a, _, ok := cls(c); ok {
+			set[a] = true
+			return
+		}
+		if more, ok := predicateTableAtoms(h, v, cls, depth+1); ok {
+			for _, m := range more {
+				set[m] = true
+			}
+			return
+		}
+		okAll = false
+	}
+	for _, bc := range branchConds(h) {
+		add(bc.cond)
+	}
+	eachInstr(h, func(in ssa.Instruction) {
+		if ret, ok := in.(*ssa.Return); ok && len(ret.Results) == 1 && ret.Block().Comment != "recover" {
+			v := returnedValue0(ret, 0, nil)
+			if ph, isPhi := v.(*ssa.Phi); isPhi {
+				for _, e := range ph.Edges {
+					add(e)
+				}
+			} else {
+				add(v)
+			}
+		}
+	})
+	if !okAll {
+		return nil, false
+	}
+	var out []string
+	for a := range set {
+		out = append(out, a)
+	}
+	sort.Strings(out)
+	return out, true
+}
+
+// evalPredicateHelper: the truth value of the helper call behind cv (NOT stripped) under the valuation.
+func evalPredicateHelper(f *ssa.Function, cv ssa.Value, classify func(string) (string, bool, bool), val map[string]bool, depth int) (bool, bool) {
+	h, call, ok := predicateHelperOf(f, cv)
+	if !ok || depth > 1 {
+		return false, false
+	}
+	cls := func(c string) (string, bool, bool) { return classify(substParams(c, h, &call.Call)) }
+	// truth of a boolean value of h under val
+	var truth func(v ssa.Value) (bool, bool)
+	truth = func(v ssa.Value) (bool, bool) {
+		if k, ok := v.(*ssa.Const); ok && k.Value != nil && k.Value.Kind() == constant.Bool {
+			return constant.BoolVal(k.Value), true
+		}
+		c, pol := normCond(v)
+		if a, apol, ok := cls(c); ok {
+			return (val[a] == apol) == pol, true
+		}
+		if hv, ok := evalPredicateHelper(h, v, cls, val, depth+1); ok {
+			_, p2 := normCond(v)
+			return hv == p2, true
+		}
+		return false, false
+	}
+	b := h.Blocks[0]
+	var prev *ssa.BasicBlock
+	prevSlot := 0
+	for steps := 0; steps < 200; steps++ {
+		last := b.Instrs[len(b.Instrs)-1]
+		switch x := last.(type) {
+		case *ssa.Return:
+			v := returnedValue0(x, 0, prev)
+			if ph, isPhi := v.(*ssa.Phi); isPhi && prev != nil && ph.Block() == b {
+				if pi := predSlot(prev, prevSlot, b); pi > 0 {
+					v = ph.Edges[pi-1]
+				}
+			}
+			return truth(v)
+		case *ssa.If:
+			cnd, flip := ssa.Value(x.Cond), false
+			if ph, neg, ok := condPhi(b); ok {
+				pi := 0
+				if prev != nil {
+					pi = predSlot(prev, prevSlot, b)
+				}
+				if pi == 0 {
+					return false, false
+				}
+				cnd, flip = ph.Edges[pi-1], neg
+			}
+			t, ok := truth(cnd)
+			if !ok {
+				return false, false
+			}
+			next := 1
+			if t != flip {
+				next = 0
+			}
+			prev, prevSlot = b, next
+			b = b.Succs[next]
+		default:
+			if len(b.Succs) != 1 {
+				return false, false
+			}
+			prev, prevSlot = b, 0
+			b = b.Succs[0]
+		}
+	}
+	return false, false
 }
